@@ -23,7 +23,9 @@ def main() -> int:
     a = ap.parse_args()
 
     faulthandler.dump_traceback_later(a.watchdog, exit=True)
-    from vf import common
+    from vf import common, simclock
+
+    simclock.install()       # before the library is imported: `from time import monotonic` in library code binds the dispatcher
 
     common.setup_path()
     from vf import logcfg
